@@ -201,3 +201,6 @@ def check(ctx):
                           key="sflow:json:" + str(e).split(":")[0][:40])
     ctx.extra["documents_checked"] = {"ipfix_v9": len(rows), "v5": nv5, "sflow": nsf}
     ctx.traces_validated += nv5 + nsf
+    # the real workers in parallel under the race detector: what each publishes is its own datagram's message
+    from props import c12
+    c12.parallel_stage(ctx, thorough)
